@@ -20,7 +20,7 @@ import gc, io, os, random, shutil, threading, time, weakref, multiprocessing as 
 from .. import tlc, trace
 from ..common import Verdict, use_repo, SEED, BUILD, ensure_dir
 
-ACTIONS = ['Unwind', 'DetEnc', 'Refill', 'ScanStale', 'ScanReady', 'Skip', 'FetchEnd', 'FetchMarker', 'FetchTok', 'ParseDocStart0',
+ACTIONS = ['Start', 'AbandonNew', 'Unwind', 'DetEnc', 'Refill', 'ScanStale', 'ScanReady', 'Skip', 'FetchEnd', 'FetchMarker', 'FetchTok', 'ParseDocStart0',
            'ParseDocStart', 'ParseContent', 'ParseDocEnd', 'ApiStep', 'ApiNext', 'Abandon']
 ALLMODES = '{"scan", "parse", "load"}'
 
@@ -38,7 +38,7 @@ def design_configs(tier):
             ('b8', dict(base, Block=8, TermLen=3, MaxTail=3, MaxKey=6, MaxSize=9, MaxGap=17, Modes='{"load", "scan"}'))]
 
 
-NEGATIVE = [('eager', 'H_Order'), ('depeek', 'H_Order'), ('greedy', 'H_ReaderOrder'), ('shadow', 'H_Release'),
+NEGATIVE = [('early', 'H_Release'), ('eager', 'H_Order'), ('depeek', 'H_Order'), ('greedy', 'H_ReaderOrder'), ('shadow', 'H_Release'),
             ('crjoin', 'H_ReaderOrder')]
 
 
@@ -326,13 +326,18 @@ def iterate(yaml, api, be, data, rule, seed, abandon, fileof=None):
             where = lambda: os.lseek(fd, 0, os.SEEK_CUR)
             nreads = where
         sref = weakref.ref(stream)
-        gen = getattr(yaml, api)(stream, Loader=L)
         yields, outcome, err = [], 'done', ''
         open_doc = False
         nitems = 0
-        item = None
+        item = gen = None
+        atcall = 0
         try:
-            for item in gen:
+            # the call is the first step of the iteration: whatever it reads or raises is an observation
+            gen = getattr(yaml, api)(stream, Loader=L)
+            atcall = where()
+            if abandon is not None and abandon[1] == 0:           # dropped before the first item is asked for (k = 0)
+                outcome = 'abandoned'
+            for item in (gen if outcome == 'done' else ()):
                 nitems += 1
                 delivered = False
                 if api in ('load_all', 'compose_all'):
@@ -358,7 +363,8 @@ def iterate(yaml, api, be, data, rule, seed, abandon, fileof=None):
             outcome, err = 'exception', type(e).__name__
         item = None
         calls_before = nreads()
-        gen.close()
+        if gen is not None:
+            gen.close()
         del gen
         reads_after = nreads() - calls_before
         block, calls = (stream.asked, stream.calls) if fileof is None else (0, 0)
@@ -386,6 +392,7 @@ def iterate(yaml, api, be, data, rule, seed, abandon, fileof=None):
     del L
     gc.collect()
     return {'yields': yields, 'outcome': outcome, 'errclass': err, 'disposals': seen['disposals'], 'readsAfter': reads_after,
+            'atcall': atcall, 'built': len(seen['refs']),
             'alive': alive, 'held': held, 'block': block, 'calls': calls}
 
 
@@ -405,7 +412,7 @@ def work(args):
             b = {'kind': 'reader' if bad[0] == 'reader' else 'other', 'doc': bad[1], 'at': ubad}
         traces.append({'block': block, 'slack': slack, 'api': api, 'be': be, 'ends': uends, 'yields': o['yields'],
                        'outcome': o['outcome'], 'bad': b, 'disposals': o['disposals'], 'readsAfter': o['readsAfter'],
-                       'alive': o['alive']})
+                       'alive': o['alive'], 'atcall': o['atcall'], 'built': o['built']})
         meta.append(dict(m, be=be, api=api, ndocs=len(uends), held=o['held'], errclass=o['errclass']))
 
     def through_file(sd, be, rnd, text, ends, bad, apis, m):
@@ -424,9 +431,11 @@ def work(args):
         asked = blocks[be]
         slack = file_slack(kind, path, enc, asked)
         block = asked * (maxw if kind == 'text' else 1)       # read(n) of a text file asks for n characters
-        for api in apis:
-            o = iterate(yaml, api, be, None, None, sd, None, fileof=(kind, path, enc))
-            record(o, api, be, uends, bad, ubad, block, slack, dict(m, file=kind, units=len(data), slack=slack))
+        for i, api in enumerate(apis):
+            for ab in ([None, ('doc', 0)] if i == 0 else [None]):
+                o = iterate(yaml, api, be, None, None, sd, ab, fileof=(kind, path, enc))
+                record(o, api, be, uends, bad, ubad, block, slack,
+                       dict(m, file=kind, units=len(data), slack=slack, abandon_after=list(ab) if ab else None))
         os.remove(path)
 
     for sd in seeds:
@@ -450,7 +459,9 @@ def work(args):
                     ab = None if (api == full_api and len(uends) <= 1500) else \
                         ('doc', min(len(uends), (300 + sd % 200) if api == full_api else (40 + sd % 50)))
                     o = iterate(yaml, api, be, data, rule, sd, ab)
-                    record(o, api, be, uends, None, 0, o['block'], 0, dict(m, abandon_after=list(ab) if ab else None))
+                    record(o, api, be, uends, None, 0, o['block'] or block, 0, dict(m, abandon_after=list(ab) if ab else None))
+                o = iterate(yaml, full_api, be, data, rule, sd, ('doc', 0))
+                record(o, full_api, be, uends, None, 0, o['block'] or block, 0, dict(m, abandon_after=['doc', 0]))
                 if j % 2 == 0:
                     through_file(sd, be, rnd, data, uends, None, [full_api], m)
                 continue
@@ -480,11 +491,13 @@ def work(args):
                 plans = [None]
                 if len(ends) >= 1 and rnd.random() < 0.5:
                     plans.append(('doc', rnd.randint(1, len(ends))))
+                if rnd.random() < 0.3:                                      # before the first item is asked for
+                    plans.append(('doc', 0))
                 if api in ('scan', 'parse') and rnd.random() < 0.4:        # in the middle of a document
                     plans.append(('item', rnd.randint(1, 4 + 6 * len(ends))))
                 for ab in plans:
                     o = iterate(yaml, api, be, data, rule, sd, ab)
-                    record(o, api, be, uends, bad, ubad, o['block'], 0, dict(m, abandon_after=list(ab) if ab else None))
+                    record(o, api, be, uends, bad, ubad, o['block'] or block, 0, dict(m, abandon_after=list(ab) if ab else None))
             if sd % 2 == 0:          # "the stream" is also a real file: text / buffered / raw, observed at the descriptor
                 through_file(sd, be, rnd, text, ends, bad, rnd.sample(apis, 2), m)
     shutil.rmtree(tmp, ignore_errors=True)
@@ -565,6 +578,10 @@ def main(tier, replay=None):
     if unreleased:
         v.note('spec-drift C18/release: loader or stream not freed by reference counting after an iteration that was not '
                'abandoned (LazyPipe.tla: L_ReleaseOnError): %s' % unreleased)
+    early = sum(1 for t, m in zip(traces, meta) if t['atcall'] > 0 and 'file' not in m)
+    if early:
+        v.note('spec-drift C18/call: %d iterations requested input at call time, before the first item was asked for '
+               '(LazyPipe.tla: L_NothingAtCall)' % early)
     nontrivial = sum(1 for t in traces if len(t['ends']) >= 2 and t['ends'][-1] > 3 * t['block'])
     kinds = {}
     for t in traces:
